@@ -14,7 +14,6 @@ import copy
 import json
 import multiprocessing as mp
 import os
-import random
 import signal
 import traceback
 from concurrent.futures import ThreadPoolExecutor
